@@ -8,14 +8,25 @@ struct FOInfo
   bool unbounded;
   bool dropping;
   size_t init_cap;
-  size_t max_cap; // == init_cap for bounded
+  size_t max_cap; // the configured maximum (== init_cap for bounded)
   unsigned retry_ns;
+  // the largest buffer the queue can actually reach: init_cap * 2^k <= max_cap (a record between this and max_cap is
+  // neither accepted nor rejected with an error; DESIGN.md, Corrections 6)
+  size_t reach_cap() const
+  {
+    size_t c = init_cap;
+    while (c * 2 <= max_cap)
+    {
+      c *= 2;
+    }
+    return c;
+  }
 };
 constexpr int N_FO = 8;
 inline FOInfo fo_info(int k)
 {
   static FOInfo const t[N_FO] = {{true, false, 256, 2048, 800},    {true, false, 1024, 16384, 0},
-                                 {true, false, 131072, 2147483648ull, 800}, {true, true, 512, 2048, 800},
+                                 {true, false, 131072, 2147483648ull, 800}, {true, true, 512, 3000, 800},
                                  {false, false, 512, 512, 0},      {false, false, 1024, 1024, 800},
                                  {false, true, 512, 512, 800},     {false, true, 4096, 4096, 800}};
   return t[k % N_FO];
